@@ -340,6 +340,51 @@ pub fn replay(path: &str) -> Result<i32, String> {
     let v: Value = serde_json::from_str(&text).map_err(|e| e.to_string())?;
     let scn = Scenario::from_json(v.get("scenario").ok_or("no scenario")?).ok_or("bad scenario")?;
     let oracle = v.get("oracle").and_then(|x| x.as_str()).unwrap_or("").to_string();
+    if let Some(b) = v.get("batch_replay") {
+        // the violation depends on state the library keeps PROCESS-wide (a static shared by all worker threads):
+        // first all runs up to the failing one in index order on one thread, then, if that does not show it, the
+        // original multi-threaded batch (whose thread timing the simulator does not control)
+        let workers = b.get("workers").and_then(|x| x.as_u64()).unwrap_or(16);
+        let tier = v.get("tier").and_then(|x| x.as_str()).unwrap_or("quick").to_string();
+        let master = v.get("master_seed").and_then(|x| x.as_u64()).unwrap_or(0);
+        let idx = v.get("run_index").and_then(|x| x.as_u64()).unwrap_or(0);
+        let property = scn.property.clone();
+        println!("batch replay: runs 0..={} in index order on one thread", idx);
+        let (p2, t2, o2) = (property.clone(), tier.clone(), oracle.clone());
+        let seq = crate::osrand::on_primed_thread(Some(worker_keys(master, &property, 0)), move || -> Result<Option<(u64, Violation)>, String> {
+            if idx > 50_000 {
+                return Ok(None); // too long for one thread: go straight to the multi-threaded batch
+            }
+            for j in 0..=idx {
+                let s = make_scenario(&p2, &t2, master, j);
+                let o = execute(&s, false)?;
+                if let Some(x) = o.violations.into_iter().find(|x| x.oracle == o2) {
+                    return Ok(Some((j, x)));
+                }
+            }
+            Ok(None)
+        })?;
+        let found = match seq {
+            Some(x) => Some(x),
+            None => {
+                println!("batch replay: the same batch again with {} worker threads", workers);
+                let known = load_known()?;
+                let r = run_batch(&property, &tier, master, idx + 1, workers as usize, false, &known);
+                r.acc.violating.into_iter().find(|x| x.1.oracle == oracle).map(|x| (x.0, x.1))
+            }
+        };
+        return Ok(match found {
+            Some((j, x)) => {
+                println!("oracle={} run={} step={} {}", x.oracle, j, x.step, x.msg);
+                println!("REPRODUCED property={} oracle={} replay={}", property, oracle, path);
+                1
+            }
+            None => {
+                println!("NOT-REPRODUCED property={} oracle={}", property, oracle);
+                0
+            }
+        });
+    }
     let out = if let Some(h) = v.get("history_replay") {
         // the violation depends on what the same OS thread executed before this run (state kept inside the
         // library across operations): replay the worker's whole stripe
@@ -672,7 +717,24 @@ fn run_check(property: &str, tier: &str) -> Result<i32, String> {
                             exit = 1;
                         }
                         None => {
-                            return Err(format!("violation {} at run {} did not reproduce from its replay file {} in five fresh processes, nor from the history replay {}", mv.oracle, idx, path, hist_path));
+                            // last of all: state shared by all worker threads of the process
+                            let batch_path = format!("{}/replays/{}-{}-{}-batch.json", verif_dir(), property, master, idx);
+                            let j = json!({
+                                "version": 1, "engine": "envsim", "property": property, "oracle": v.oracle, "tier": tier,
+                                "master_seed": master, "run_index": idx, "violation": v.msg, "signature": v.signature,
+                                "batch_replay": {"workers": workers() as u64,
+                                    "why": "the run fails only in a process that has executed other runs before it, on whatever thread: the library keeps process-wide state"},
+                                "scenario": scn.to_json(),
+                            });
+                            std::fs::write(&batch_path, serde_json::to_string_pretty(&j).unwrap()).map_err(|e| e.to_string())?;
+                            let again = confirm_in_fresh_process(&batch_path, &v.oracle)?;
+                            println!("violation: oracle={} run={} (not reproducible from the run alone nor from its worker's history: process-wide state inside the library): {}", v.oracle, idx, v.msg);
+                            if again.is_none() {
+                                println!("note: observed in this process against the reference model; the batch replay did not show it again in five fresh processes (it depends on the timing of the worker threads)");
+                            }
+                            println!("VIOLATION property={} replay={}", property, batch_path);
+                            new_violations += 1;
+                            exit = 1;
                         }
                     }
                 }
